@@ -418,15 +418,21 @@ theorem two_restrictions_suffice_partial (s0 : St) (h0 : T46Init s0) (hi : W6Ini
 
 /-- **tasks are well formed** (PARTIAL: sessions guarded by (tick) + (root)).  Every registered task belongs to an existing event;
     a task with a parent is never a user generator: its generator is a waitEvent generator, a `TimeoutError` carrier or a one-shot
-    value generator; a started wait state has an existing `task_event`; and the task of a `.ptOwn` frame (the task's own user
+    value generator; the parent of a task, the caller of a started wait state and a generator returned by a handler are never
+    carriers (carrier status never changes); a started wait state has an existing `task_event`; and the task of a `.ptOwn` frame (the task's own user
     generator has just been advanced) is an ordinary task `(e, g, None)` of an existing event - clause (own). -/
 theorem tasks_well_formed_partial (s0 : St) (h0 : T46Init s0) (hi : W6InitWait s0) (hq : T46InitQ s0) (c : Cfg)
     (h : T46ReachM2 s0 c) :
     (∀ x t, t ∈ (c.st.comp x).tasks → t.e < c.st.evs.length ∧
-      (t.parent.isSome = true → t.g < c.st.gens.length ∧ (c.st.gen t.g).t46_carrier = true)) ∧
-    (∀ w, (c.st.wait w).started = true → (c.st.wait w).taskEvent < c.st.evs.length) ∧
-    (∀ r t k, c.stack = .ptOwn r t :: k → t.parent = none ∧ t.e < c.st.evs.length) :=
-  ⟨(h.all h0 hi hq).2.2.tasks, (h.all h0 hi hq).2.2.waits, fun r t k hs => (h.all h0 hi hq).2.2.own r t k hs⟩
+      (t.parent.isSome = true → t.g < c.st.gens.length ∧ (c.st.gen t.g).t46_carrier = true) ∧
+      (∀ p, t.parent = some p → p < c.st.gens.length ∧ (c.st.gen p).t46_carrier = false)) ∧
+    (∀ w, (c.st.wait w).started = true → (c.st.wait w).taskEvent < c.st.evs.length ∧
+      (c.st.wait w).parentGen < c.st.gens.length ∧ (c.st.gen (c.st.wait w).parentGen).t46_carrier = false) ∧
+    (∀ r t k, c.stack = .ptOwn r t :: k → t.parent = none ∧ t.e < c.st.evs.length) ∧
+    (∀ r e rest err g k, c.stack = .hApply r e rest err (.gen g) :: k →
+      g < c.st.gens.length ∧ (c.st.gen g).t46_carrier = false) :=
+  ⟨(h.all h0 hi hq).2.2.tasks, (h.all h0 hi hq).2.2.waits, fun r t k hs => (h.all h0 hi hq).2.2.own r t k hs,
+   fun r e rest err g k hs => (h.all h0 hi hq).2.2.frames (.hApply r e rest err (.gen g)) (by rw [hs]; simp) g rfl⟩
 
 example (s0 : St) : T46ReachM2 s0 (startOf (envChange s0 0 []) (.tick 0)) := T46ReachM2.init 0 [] (.tick 0) trivial
 example : T46GuardMin2 { st := {} } := ⟨fun _ _ h => (by cases h), fun _ _ h => (by cases h)⟩
